@@ -125,6 +125,15 @@ func VerifC03XArray(d int, base int, radix int, pretty int) {
 	// an empty sub-list is written as nil by the flat printer and as () by the pretty one; the
 	// reader only copes with () in the last dimension
 	vrt.Carve("C03-array-zero-dimension", 2 <= rank && (zeroInner || (zeroLast && pretty == 0)))
+	// what remains after the repair: the nested-list syntax after #nA cannot say how long the rows
+	// of zero rows would be, so a zero dimension followed by a non-zero one reads back as zero
+	zeroThenNonZero := false
+	for i, n := range dims {
+		if n == 0 && i < rank-1 && dims[i+1] != 0 {
+			zeroThenNonZero = true
+		}
+	}
+	vrt.Carve("C03-array-zero-then-nonzero-dimension", 2 <= rank && zeroThenNonZero)
 	vrt.Carve("C03-array-rank-in-print-base", 2 <= rank && (radix != 0 || base <= rank))
 	arr := NewArray(dims, TrueSymbol, nil, nil, false)
 	for i := range arr.elements {
